@@ -6,6 +6,7 @@
   Theorems/EndToEnd.lean.
 -/
 import MdwModel.Model.Stack
+import MdwModel.Model.Dump
 namespace Mdw
 
 /-- what the gathering of one thread's stack depends on -/
@@ -40,6 +41,84 @@ def gatherStack (env : GEnv) (cfg : GCfg) (idx n currPos : Nat) (isCrash : Bool)
         | .fuelOut => .fuelOut
       else .ok (some (r.1, bytes))
   | _ => .ok none
+
+/-- what ptrace reported for one thread: id, stack and instruction pointer, and the serialised CONTEXT its registers
+    are converted to (`fill_cpu_context`; the conversion itself is the C04 model) -/
+structure TInfo where
+  tid : Nat
+  sp : Nat
+  ip : Nat
+  ctx : Bytes
+
+/-- the crash context supplied with the request: its stack and instruction pointer and the serialised CONTEXT its
+    registers are converted to -/
+structure CrashIn where
+  sp : Nat
+  ip : Nat
+  ctx : Bytes
+
+/-- the memory around the crash instruction pointer: the window clipped to the first mapping that contains it, read
+    from the target; nothing when no mapping contains it -/
+def gatherWindow (env : GEnv) (ip : Nat) : Outcome (Option (Nat × Bytes)) :=
+  match ipWindow env.ms ip with
+  | none => .ok none
+  | some (lo, len) =>
+    match env.read lo len with
+    | none => .err "CopyFromProcessError"
+    | some b => .ok (some (lo, b))
+
+/-- one iteration of the loop of `thread_list_stream::write`: the thread of the crash context takes its stack pointer,
+    instruction pointer and registers from the crash context, is never shortened and gets the instruction-pointer
+    window; every other thread takes them from ptrace and is shortened by position -/
+def gatherThread (env : GEnv) (cfg : GCfg) (crash : Option CrashIn) (blamed : Nat) (idx n currPos : Nat) (t : TInfo) :
+    Outcome DThread :=
+  match crash with
+  | some c =>
+    if t.tid = blamed then
+      match gatherStack env cfg idx n currPos true c.sp c.ip with
+      | .ok stack =>
+        match gatherWindow env c.ip with
+        | .ok window => .ok { tid := t.tid, sp := c.sp, stack := stack, window := window, ctx := c.ctx, ip := c.ip }
+        | .err e => .err e
+        | .panic w => .panic w
+        | .fuelOut => .fuelOut
+      | .err e => .err e
+      | .panic w => .panic w
+      | .fuelOut => .fuelOut
+    else
+      match gatherStack env cfg idx n currPos false t.sp t.ip with
+      | .ok stack => .ok { tid := t.tid, sp := t.sp, stack := stack, window := none, ctx := t.ctx, ip := t.ip }
+      | .err e => .err e
+      | .panic w => .panic w
+      | .fuelOut => .fuelOut
+  | none =>
+    match gatherStack env cfg idx n currPos false t.sp t.ip with
+    | .ok stack => .ok { tid := t.tid, sp := t.sp, stack := stack, window := none, ctx := t.ctx, ip := t.ip }
+    | .err e => .err e
+    | .panic w => .panic w
+    | .fuelOut => .fuelOut
+
+/-- the loop: threads in list order, the first failure aborts -/
+def gatherThreadsFrom (env : GEnv) (cfg : GCfg) (crash : Option CrashIn) (blamed : Nat) (n currPos : Nat) :
+    Nat → List TInfo → Outcome (List DThread)
+  | _, [] => .ok []
+  | idx, t :: ts =>
+    match gatherThread env cfg crash blamed idx n currPos t with
+    | .ok d =>
+      match gatherThreadsFrom env cfg crash blamed n currPos (idx + 1) ts with
+      | .ok ds => .ok (d :: ds)
+      | .err e => .err e
+      | .panic w => .panic w
+      | .fuelOut => .fuelOut
+    | .err e => .err e
+    | .panic w => .panic w
+    | .fuelOut => .fuelOut
+
+/-- `thread_list_stream::write`'s gathering for a dump with `numWriters` directory slots: the size-limit decision is
+    taken with the image at header + directory + count + record array -/
+def gatherThreads (env : GEnv) (cfg : GCfg) (crash : Option CrashIn) (blamed : Nat) (numWriters : Nat) (ts : List TInfo) :
+    Outcome (List DThread) :=
+  gatherThreadsFrom env cfg crash blamed ts.length (32 + 12 * numWriters + 4 + 48 * ts.length) 0 ts
 
 /-- the order in which `gatherStack` runs its steps (compared with the regenerated order of the Rust function's
     steps, `Src.fillThreadStackSteps`, by `gather_order_agrees` in Theorems/EndToEnd.lean): the stack pointer's offset
